@@ -153,6 +153,13 @@ def run_case(case, ctx):
     for what, a1, a2, flip in (("int array vs fractional float array", iarr(S), farr(Th), False), ("fractional float array vs int array", farr(Th), iarr(S), True)):
         vm, _ = call_warn(ctx, persim.bottleneck, a1, a2)
         check_value(ctx, "value-mixed-dtype", vm, rm, 0.0, what, Th if flip else S, S if flip else Th)
+    # integer-typed arrays with large values / narrow or unsigned dtypes
+    for dt, kk in ((np.int64, 4 * 10 ** 9), (np.int32, 50000), (np.uint8, 60)):
+        Si = (np.array(S, dtype=np.int64).reshape(-1, 2) * kk).astype(dt)
+        Ti = (np.array(T, dtype=np.int64).reshape(-1, 2) * kk).astype(dt)
+        ri, _ = om.bottleneck_ref(Si.astype(float).tolist(), Ti.astype(float).tolist())
+        vi, _ = call_warn(ctx, persim.bottleneck, Si, Ti)
+        check_value(ctx, "value-int-dtype", vi, ri, 0.0, "%s arrays x %d" % (np.dtype(dt), kk), Si.tolist(), Ti.tolist())
     if not S or not T:
         ve, _ = call_warn(ctx, persim.bottleneck, np.array(S, dtype=float), np.array(T, dtype=float))
         check_value(ctx, "value-container", ve, ref, 0.0, "np.array([]) for the empty diagram", S, T)
